@@ -198,6 +198,8 @@ type Check struct {
 	Post func(results []Result, env *Env) []Result
 	// MinEvents: observation counters that must be non-zero for the run to count at all.
 	MinEvents []string
+	// CrashInconclusive: a worker death is another property's verdict (C06); count the case as inconclusive here.
+	CrashInconclusive bool
 }
 
 var registry = map[string]*Check{}
